@@ -49,7 +49,8 @@ def main():
         shutil.rmtree(d, ignore_errors=True)
     alarms = {p: l for p, rc, l in res if rc == 1}
     undecided = {p: l for p, rc, l in res if rc == 2}
-    out = {"id": "%s%s" % (pid, which), "property": pid, "tests_pass": passed, "false_alarms": alarms, "undecided": undecided,
+    rid = sys.argv[sys.argv.index("--id") + 1] if "--id" in sys.argv else "%s%s" % (pid, which)
+    out = {"id": rid, "property": pid, "tests_pass": passed, "false_alarms": alarms, "undecided": undecided,
            "silent": [p for p, rc, _ in res if rc == 0]}
     dd = os.path.join(VERIF, "refactors", out["id"])
     os.makedirs(dd, exist_ok=True)
@@ -58,7 +59,7 @@ def main():
     if os.path.exists(notes):
         out["agent_notes"] = open(notes).read()[:5000]
     json.dump(out, open(os.path.join(dd, "result.json"), "w"), indent=1)
-    print("%s%s tests_pass=%s  silent=%d  FALSE-ALARMS=%s  undecided=%s" % (pid, which, passed, len(out["silent"]), sorted(alarms), sorted(undecided)))
+    print("%s (%s%s) tests_pass=%s  silent=%d  FALSE-ALARMS=%s  undecided=%s" % (rid, pid, which, passed, len(out["silent"]), sorted(alarms), sorted(undecided)))
     for p, l in list(alarms.items()) + list(undecided.items()):
         for x in l[:2]:
             print("   %s: %s" % (p, x[:260]))
